@@ -34,11 +34,12 @@ def confirm(src, sid, prop, crate):
         os.makedirs(os.path.dirname(demo_dst), exist_ok=True)
         shutil.copy(f"{src}/demo.rs", demo_dst)
         feat = "--features sync,async-tokio" if crate == "simple-mdns" else ""
-        rc1, out1 = sh(f"cargo test -p {crate} {feat} --test demo_seeded --offline 2>&1 | tail -30", SCR)
+        denv = dict(ENV, RUSTFLAGS="--cfg simple_dns_verif", CARGO_TARGET_DIR="/tmp/seedcheck-target-cfg") if crate == "simple-mdns" else ENV
+        rc1, out1 = sh(f"cargo test -p {crate} {feat} --test demo_seeded --offline 2>&1 | tail -30", SCR, env=denv)
         p1, f1 = passed(out1)
         meta["demo_with_change"] = {"passed": p1, "failed": f1, "tail": out1[-600:]}
         sh(f"git apply -R {src}/patch.diff", SCR)
-        rc2, out2 = sh(f"cargo test -p {crate} {feat} --test demo_seeded --offline 2>&1 | tail -30", SCR)
+        rc2, out2 = sh(f"cargo test -p {crate} {feat} --test demo_seeded --offline 2>&1 | tail -30", SCR, env=denv)
         p2, f2 = passed(out2)
         meta["demo_without_change"] = {"passed": p2, "failed": f2}
         ok = p >= 130 and f == 0 and f1 > 0 and f2 == 0 and p2 > 0
